@@ -65,6 +65,12 @@ inductive Expr
   | index (e k : Expr)
   /-- a call of the function being defined (recursion): `f(a, b)` -/
   | recCall (a b : Expr)
+  /-- `self.<name>` for an attribute other than `reward` / `location_in_state` (e.g. `self.reward_components`) -/
+  | selfAttr (name : String)
+  /-- `a + b`, `a * b` on numbers -/
+  | add (a b : Expr) | mul (a b : Expr)
+  /-- `obj.calculate(state=state, last_action_response=last_action_response)` for a component object -/
+  | calcOf (obj : Expr)
 deriving Repr
 
 inductive Target
@@ -73,6 +79,8 @@ inductive Target
   | selfLoc
   /-- `last_action_response.reward_info` -/
   | itemRewardInfo
+  /-- `self.<name>` -/
+  | selfAttr (name : String)
 deriving Repr
 
 inductive Stmt
@@ -83,6 +91,8 @@ inductive Stmt
   | ret (e : Expr)
   /-- `x = l.pop(0)` for a local list `l` -/
   | popFront (x l : String)
+  /-- `for x in e: body` (no `break` / `continue`; a `return` inside leaves the function) -/
+  | forIn (x : String) (e : Expr) (body : Stmt)
 deriving Repr
 
 /-- everything a `calculate` body can see -/
@@ -100,6 +110,10 @@ structure Env where
   cb : Name → Val := fun _ => 0
   /-- what a recursive call of the function being interpreted answers (bounded unfolding: see `runFunction`) -/
   recCall : PyVal → PyVal → Except Err PyVal := fun _ _ => .error .typeError
+  /-- other attributes of `self` (`self.reward_components`, `self.current_reward`, …) -/
+  selfAttrs : List (String × PyVal) := []
+  /-- what `calculate` of a component object returns (or raises) on this state and item -/
+  calcOf : PyVal → Except Err PyVal := fun _ => .error .attributeError
 
 /-- `a is b`, for the two singletons that occur: the sentinel and `None` -/
 def pyIs : PyVal → PyVal → Bool
@@ -169,6 +183,16 @@ def pyLen : PyVal → Except Err Nat
   | .str s => .ok s.length
   | .dict kvs => .ok kvs.length
   | _ => .error .typeError
+
+/-- `a + b` / `a * b` on Python numbers (a float operand makes the result a float; values are exact) -/
+def pyArith (op : Rat → Rat → Rat) (a b : PyVal) : Except Err PyVal :=
+  match a.asNum, b.asNum with
+  | some x, some y =>
+    match a, b with
+    | .num _, _ => .ok (.num (op x y))
+    | _, .num _ => .ok (.num (op x y))
+    | _, _ => .ok (.num (op x y))      -- (int results are not needed by any translated function; kept as exact numbers)
+  | _, _ => .error .typeError
 
 def eval (env : Env) : Expr → Except Err PyVal
   | .const v => .ok v
@@ -298,6 +322,28 @@ def eval (env : Env) : Expr → Except Err PyVal
       match eval env b with
       | .error e => .error e
       | .ok y => env.recCall x y
+  | .selfAttr name =>
+    match env.selfAttrs.lookup name with
+    | some v => .ok v
+    | none => .error .attributeError
+  | .add a b =>
+    match eval env a with
+    | .error e => .error e
+    | .ok x =>
+      match eval env b with
+      | .error e => .error e
+      | .ok y => pyArith (· + ·) x y
+  | .mul a b =>
+    match eval env a with
+    | .error e => .error e
+    | .ok x =>
+      match eval env b with
+      | .error e => .error e
+      | .ok y => pyArith (· * ·) x y
+  | .calcOf obj =>
+    match eval env obj with
+    | .error e => .error e
+    | .ok o => env.calcOf o
 
 def assignTo (env : Env) (t : Target) (v : PyVal) : Env :=
   match t with
@@ -305,6 +351,16 @@ def assignTo (env : Env) (t : Target) (v : PyVal) : Env :=
   | .selfReward => { env with reward := v }
   | .selfLoc => { env with loc := v }
   | .itemRewardInfo => { env with item := { env.item with rewardInfo := v } }
+  | .selfAttr name => { env with selfAttrs := (name, v) :: env.selfAttrs }
+
+/-- the iterations of a `for` loop: the body once per element, the loop variable bound to it; a `return` ends everything -/
+def loopOver (body : Env → Except Err (Env × Option PyVal)) (x : String) : List PyVal → Env → Except Err (Env × Option PyVal)
+  | [], env => .ok (env, none)
+  | v :: rest, env =>
+    match body { env with locals := (x, v) :: env.locals } with
+    | .error e => .error e
+    | .ok (env', some r) => .ok (env', some r)
+    | .ok (env', none) => loopOver body x rest env'
 
 /-- run a statement: the environment afterwards and, if a `return` was executed, the returned value -/
 def exec : Stmt → Env → Except Err (Env × Option PyVal)
@@ -332,6 +388,13 @@ def exec : Stmt → Env → Except Err (Env × Option PyVal)
     | some (.list []) => .error .indexError           -- pop from empty list
     | some _ => .error .attributeError
     | none => .error .typeError
+  | .forIn x e body, env =>
+    match eval env e with
+    | .error e => .error e
+    | .ok v =>
+      match pyIterList v with
+      | .error e => .error e
+      | .ok xs => loopOver (fun env' => exec body env') x xs env
 
 /-- a returned Python number as a reward value (`weight * None` etc. raise `TypeError`) -/
 def toVal : PyVal → Except Err Val
